@@ -148,6 +148,10 @@ func Content(r *rand.Rand, class string, n int) []byte {
 			i++
 		}
 		copy(b, sb.Bytes()[:n])
+	case "whitespace": // white space only (spaces, tabs, CR, LF) - still content, not an empty file
+		for i := range b {
+			b[i] = " \n\t\r\n\n  "[r.Intn(8)]
+		}
 	case "ptrprefix": // a canonical pointer text followed by payload
 		p := ptrspec.Canonical(ptrspec.Pointer{Oid: strings.Repeat("ab", 32), Size: 12345})
 		r.Read(b)
